@@ -93,6 +93,7 @@ pub fn run(rng: &mut Rng, thorough: bool, _corpus: &[String]) -> Run {
     let applied = Arc::new(AtomicU64::new(0));
     let floor = Arc::new(AtomicU64::new(0));
     let failures: Arc<Mutex<Vec<String>>> = Arc::new(Mutex::new(vec![]));
+    let rounds_done = AtomicU64::new(0);
     let seed = rng.next();
     let started = SystemTime::now();
     std::thread::scope(|sc| {
@@ -128,11 +129,21 @@ pub fn run(rng: &mut Rng, thorough: bool, _corpus: &[String]) -> Run {
                 }
             });
         }
-        for k in 0..rounds {
+        // the publisher keeps going until it has applied `rounds` rounds AND the readers have checked
+        // `want` snapshots (so that the amount of checking does not depend on how the OS schedules
+        // the readers), bounded by a wall-clock cap
+        let want: u64 = if thorough { 500_000 } else { 50_000 };
+        let mut k = 0u64;
+        while (k < rounds || checked.load(Ordering::Relaxed) < want)
+            && started.elapsed().map_or(true, |d| d.as_secs() < if thorough { 600 } else { 120 })
+        {
             let probes = make_round(k);
             tracer.verif_apply_round(&Round::new(&probes, TimeToLive(HOPS), CompletionReason::TargetFound));
             applied.store(k + 1, Ordering::SeqCst);
+            k += 1;
+            if k % 8 == 0 { std::thread::yield_now(); }
         }
+        rounds_done.store(k, Ordering::Relaxed);
         stop.store(true, Ordering::Relaxed);
     });
     for d in failures.lock().unwrap().iter() {
@@ -140,6 +151,7 @@ pub fn run(rng: &mut Rng, thorough: bool, _corpus: &[String]) -> Run {
     }
     *run.stats.entry("snapshots_checked".into()).or_default() = checked.load(Ordering::Relaxed);
     *run.stats.entry("clears".into()).or_default() = clears.load(Ordering::Relaxed);
+    let rounds = rounds_done.load(Ordering::Relaxed);
     *run.stats.entry("rounds_applied".into()).or_default() = rounds;
     *run.stats.entry("wall_ms".into()).or_default() = started.elapsed().map_or(0, |d| d.as_millis() as u64);
     run.samples.push(format!("{} snapshots by 4 readers against {} rounds and {} clears", checked.load(Ordering::Relaxed), rounds, clears.load(Ordering::Relaxed)));
